@@ -712,6 +712,8 @@ func c08CompileGrowth(c *ev.Ctx) {
 		{"foreach-range", "foreach a in 1..2 { ", " }"},
 		{"function-definition", "function inner() { ", " }"},
 		{"function-definition-in-a-two-value-case", "switch (x) { case 1, 2 { function inner() { ", " } } }"},
+		{"dot-with-a-parenthesised-name", "x.(", ")"},
+		{"dot-inside-index-inside-dot", "x.(x[x.(", ")])"},
 		{"function-definition-in-a-case-of-a-function", "function outer2() { switch (x) { case 1, 2, 3 { function inner() { ", " } } default { y = 1; } } }"},
 	}
 	var maxSeen uint64
@@ -722,7 +724,14 @@ func c08CompileGrowth(c *ev.Ctx) {
 				if !c.Want(id) {
 					continue
 				}
-				script := strings.Repeat(sh.pre, levels) + "y = 2;" + strings.Repeat(sh.post, levels)
+				inner := "y = 2;"
+				if strings.HasPrefix(sh.name, "dot-") {
+					inner = "b" // (these shapes nest an expression, not a statement)
+				}
+				script := strings.Repeat(sh.pre, levels) + inner + strings.Repeat(sh.post, levels)
+				if inner == "b" {
+					script = "y = " + script + ";"
+				}
 				if inFn {
 					script = "function outer(x) { " + script + " return 1; } return outer(1);"
 				} else {
